@@ -58,6 +58,7 @@ type ScriptCfg struct {
 	OnAccSession func(*AccSession)
 	BeforeRun    func(*InitSide)
 	Shape        func([]byte) []seg
+	Opts         func() *session.Opts
 }
 
 //go:norace
@@ -73,7 +74,7 @@ func (w *World) NewScript(cfg ScriptCfg) *Script {
 	if cfg.Role == "acceptor" {
 		sc.PeerID, sc.LibID = "PEER", "LIB"
 		sc.Acc = w.StartAcceptor(AccCfg{HandlerBuf: cfg.HandlerBuf, WriteTimeout: cfg.WriteTimeout, HBMin: cfg.HBMin, HBMax: cfg.HBMax,
-			CloseTimeout: cfg.CloseTimeout, Approve: cfg.Approve, Store: sc.Store, OnSession: cfg.OnAccSession})
+			CloseTimeout: cfg.CloseTimeout, Approve: cfg.Approve, Store: sc.Store, OnSession: cfg.OnAccSession, Opts: cfg.Opts})
 		cli, srv := sc.Acc.L.Dial("script", -1, -1)
 		sc.LibEnd = srv
 		sc.P = NewPeer(w, cli, "peer")
@@ -84,7 +85,7 @@ func (w *World) NewScript(cfg ScriptCfg) *Script {
 		sc.P = NewPeer(w, b, "peer")
 		sc.Ini = w.StartInitiator(InitCfg{HandlerBuf: cfg.HandlerBuf, ConnBuf: cfg.ConnBuf, WriteDeadline: cfg.WriteTimeout, HeartBtInt: cfg.HeartBtInt,
 			Sender: sc.LibID, Target: sc.PeerID, Username: cfg.Username, Password: cfg.Password, CloseTimeout: cfg.CloseTimeout, Store: sc.Store,
-			BeforeRun: cfg.BeforeRun}, a)
+			BeforeRun: cfg.BeforeRun, Opts: cfg.Opts}, a)
 	}
 	sc.Settle()
 	return sc
